@@ -476,3 +476,500 @@ Proof.
       destruct (run_hops true true false EValue [] 0 s); cbn [snd];
       apply wf_set_file, wf_add_at; [exact W|exact L|exact Logic.I].
 Qed.
+
+(* ---- 8. server level ---- *)
+Definition targets_root (c : cmd) : bool :=
+  match c with
+  | CMkd [] | CRmd [] | CDele [] | CRnfr [] | CRnto [] | CStor [] _ _ | CAppe [] _ _ => true
+  | _ => false
+  end.
+
+(* F6: REST n (n > 0) + STOR/APPE to a missing file in an existing directory *)
+Definition rest_missing (t : node) (p : path) (restart : Z) : bool :=
+  (0 <? restart) &&
+  match unsnoc p with
+  | Some (pp, _) => m_is_dir t pp && negb (m_exists t p)
+  | None => false
+  end.
+
+(* F15 (same path, source gone) and F7 (below a file / into the own subtree), when the
+   destination guard passes *)
+Definition rnto_bad (t : node) (a b : path) : bool :=
+  negb (m_exists t b) && (path_eqb a b || rename_bad t a b).
+
+Definition shape_ok (st : option path * node) (c : cmd) : bool :=
+  negb (targets_root c) &&
+  match c with
+  | CStor p restart _ | CAppe p restart _ => negb (rest_missing (snd st) p restart)
+  | CRnto b => match fst st with Some a => negb (rnto_bad (snd st) a b) | None => true end
+  | _ => true
+  end.
+
+Fixpoint shapes_ok (st : option path * node) (cs : list cmd) : bool :=
+  match cs with
+  | [] => true
+  | c :: r => shape_ok st c && shapes_ok (snd (srv_step m_run st c)) r
+  end.
+
+(* a failing command changes nothing *)
+Fixpoint inert_from (t : node) (l : list (reply * node)) : Prop :=
+  match l with
+  | [] => True
+  | (rep, t') :: r => (failing rep = true -> t' = t) /\ inert_from t' r
+  end.
+
+Lemma ask_exists_m t p : ask m_run t (Exists p) = if m_exists t p then GTrue else GFalse.
+Proof. unfold ask. cbn. destruct (m_exists t p); reflexivity. Qed.
+Lemma ask_exists_p t p : ask p_run t (Exists p) = if m_exists t p then GTrue else GFalse.
+Proof. unfold ask. cbn. rewrite <- exists_agree. destruct (m_exists t p); reflexivity. Qed.
+Lemma ask_is_dir_m t p : ask m_run t (IsDir p) = if m_is_dir t p then GTrue else GFalse.
+Proof. unfold ask. cbn. destruct (m_is_dir t p); reflexivity. Qed.
+Lemma ask_is_dir_p t p : ask p_run t (IsDir p) = if m_is_dir t p then GTrue else GFalse.
+Proof. unfold ask. cbn. rewrite <- is_dir_agree. destruct (m_is_dir t p); reflexivity. Qed.
+Lemma ask_is_file_m t p : ask m_run t (IsFile p) = if m_is_file t p then GTrue else GFalse.
+Proof. unfold ask. cbn. destruct (m_is_file t p); reflexivity. Qed.
+Lemma ask_is_file_p t p : ask p_run t (IsFile p) = if m_is_file t p then GTrue else GFalse.
+Proof. unfold ask. cbn. rewrite <- is_file_agree. destruct (m_is_file t p); reflexivity. Qed.
+
+Lemma m_exists_false t p : m_exists t p = false -> lookup p t = None.
+Proof. unfold m_exists, get_node. destruct (lookup p t); [discriminate|reflexivity]. Qed.
+Lemma m_exists_true t p : m_exists t p = true -> lookup p t <> None.
+Proof. unfold m_exists, get_node. destruct (lookup p t); [discriminate|discriminate]. Qed.
+Lemma m_is_dir_true t p : m_is_dir t p = true -> exists es, lookup p t = Some (Dir es).
+Proof. unfold m_is_dir, get_node. destruct (lookup p t) as [[d|es]|]; try discriminate. eauto. Qed.
+Lemma m_is_file_true t p : m_is_file t p = true -> exists d, lookup p t = Some (File d).
+Proof. unfold m_is_file, get_node. destruct (lookup p t) as [[d|es]|]; try discriminate. eauto. Qed.
+
+Lemma simple_agree (x y : result * node) c :
+  step_agree x y ->
+  (match x with (Ok _, t') => (([c], PNone), t') | (Err _, t') => (([451], PNone), t') end : reply * node)
+  = match y with (Ok _, t') => (([c], PNone), t') | (Err _, t') => (([451], PNone), t') end.
+Proof.
+  destruct x as [[v|e] t1], y as [[w|e'] t2]; intros [H1 H2]; cbn in *; try contradiction; subst; reflexivity.
+Qed.
+
+Lemma store_match_agree (x y : result * node) :
+  step_agree x y ->
+  (match x with
+   | (Ok (VOpen rs), t') => if forallb hres_ok rs then (([150; 226], PNone), t') else (([150; 451], PNone), t')
+   | (_, t') => (([150; 451], PNone), t')
+   end : reply * node)
+  = match y with
+    | (Ok (VOpen rs), t') => if forallb hres_ok rs then (([150; 226], PNone), t') else (([150; 451], PNone), t')
+    | (_, t') => (([150; 451], PNone), t')
+    end.
+Proof.
+  destruct x as [[v|e] t1], y as [[w|e'] t2]; intros [H1 H2]; cbn in *; try contradiction; subst; reflexivity.
+Qed.
+
+Lemma stat_entries_agree t p ns : stat_entries m_run t p ns = stat_entries p_run t p ns.
+Proof.
+  induction ns as [|n r IH]; [reflexivity|]. cbn. rewrite IH.
+  pose proof (stat_agree t (p ++ [n])) as H.
+  destruct (m_stat t (p ++ [n])) as [v|e], (p_stat t (p ++ [n])) as [w|e']; cbn in H; try contradiction; subst; reflexivity.
+Qed.
+
+Lemma listing_agree t p c : listing m_run t p c = listing p_run t p c.
+Proof.
+  unfold listing. cbn [m_run p_run fst]. rewrite <- list_agree.
+  destruct (m_list t p) as [v|e]; [|reflexivity]. destruct v; try reflexivity.
+  rewrite stat_entries_agree. reflexivity.
+Qed.
+
+Lemma store_agree t p m restart blocks :
+  (m = WB \/ m = AB) -> rest_missing t p restart = false ->
+  store m_run t p m restart blocks = store p_run t p m restart blocks.
+Proof.
+  intros Hm Hs. unfold store, rest_missing in *. destruct (unsnoc p) as [[pp x]|] eqn:E; [|reflexivity].
+  apply unsnoc_spec in E. subst p. rewrite ask_is_dir_m, ask_is_dir_p.
+  destruct (m_is_dir t pp) eqn:Hd; [|reflexivity]. destruct (m_is_dir_true _ _ Hd) as [es Hpp].
+  cbn [m_run p_run]. apply store_match_agree. apply open_write_agree with (es := es); [exact Hpp| |].
+  - destruct (0 <? restart) eqn:R; cbn [app].
+    + constructor; [cbn; lia|]. apply Forall_forall. intros h Hh. apply in_map_iff in Hh as [b [<- _]]. exact Logic.I.
+    + apply Forall_forall. intros h Hh. apply in_map_iff in Hh as [b [<- _]]. exact Logic.I.
+  - destruct (0 <? restart) eqn:R.
+    + right. right. split; [reflexivity|]. cbn in Hs. apply negb_false_iff in Hs. apply m_exists_true in Hs.
+      rewrite (lookup_snoc_dir _ x _ _ Hpp) in Hs. exact Hs.
+    + assert (Fw : Forall is_write ([] ++ map HWrite blocks)).
+      { apply Forall_forall. intros h Hh. apply in_map_iff in Hh as [b [<- _]]. exact Logic.I. }
+      destruct Hm as [->| ->]; [left; reflexivity|right; left; split; [reflexivity|exact Fw]].
+Qed.
+
+Lemma retr_script_ok restart : Forall seek_read ((if 0 <? restart then [HSeek restart] else []) ++ [HRead (-1)]).
+Proof.
+  destruct (0 <? restart) eqn:R; cbn; repeat constructor. cbn. lia.
+Qed.
+
+Lemma retrieve_agree t p d restart :
+  lookup p t = Some (File d) -> retrieve m_run t p restart = retrieve p_run t p restart.
+Proof.
+  intro H. unfold retrieve. cbn [m_run p_run].
+  rewrite (open_read_agree t p d _ H (retr_script_ok restart)). reflexivity.
+Qed.
+
+Lemma srv_step_agree rf t c :
+  wf t -> shape_ok (rf, t) c = true -> srv_step m_run (rf, t) c = srv_step p_run (rf, t) c.
+Proof.
+  intros W S. unfold shape_ok in S. apply andb_true_iff in S as [_ S]. cbn [fst snd] in S.
+  destruct c as [p|p|p|p|p|p restart blocks|p restart blocks|p restart|p|p|p|p];
+    cbn [srv_step conds];
+    rewrite ?ask_exists_m, ?ask_exists_p, ?ask_is_dir_m, ?ask_is_dir_p, ?ask_is_file_m, ?ask_is_file_p.
+  - (* MKD *) destruct (m_exists t p) eqn:E; [reflexivity|]. unfold simple. cbn [m_run p_run].
+    rewrite (mkd_agree t p (m_exists_false _ _ E)). reflexivity.
+  - (* RMD *) destruct (m_exists t p); [|reflexivity]. destruct (m_is_dir t p); [|reflexivity].
+    unfold simple. cbn [m_run p_run]. rewrite (simple_agree _ _ 250 (rmdir_agree t p)). reflexivity.
+  - (* DELE *) destruct (m_exists t p); [|reflexivity]. destruct (m_is_file t p); [|reflexivity].
+    unfold simple. cbn [m_run p_run]. rewrite (simple_agree _ _ 250 (unlink_agree t p)). reflexivity.
+  - (* RNFR *) reflexivity.
+  - (* RNTO *) destruct rf as [a|]; [|reflexivity]. destruct (m_exists t p) eqn:E; [reflexivity|].
+    unfold simple. cbn [m_run p_run].
+    assert (A : step_agree (m_rename t a p) (p_rename t a p)).
+    { destruct a as [|a0 ar].
+      - unfold m_rename, p_rename. destruct p; [cbn in E; discriminate|]. cbn. split; cbn; auto.
+      - unfold rnto_bad in S. rewrite E in S. cbn [negb andb] in S. apply negb_true_iff, orb_false_iff in S as [S1 S2].
+        apply rename_agree; [exact W|discriminate|apply m_exists_false, E|exact S1|exact S2]. }
+    rewrite (simple_agree _ _ 250 A). reflexivity.
+  - (* STOR *) rewrite (store_agree t p WB restart blocks); [reflexivity|left; reflexivity|apply negb_true_iff, S].
+  - (* APPE *) rewrite (store_agree t p AB restart blocks); [reflexivity|right; reflexivity|apply negb_true_iff, S].
+  - (* RETR *) destruct (m_exists t p); [|reflexivity]. destruct (m_is_file t p) eqn:F; [|reflexivity].
+    destruct (m_is_file_true _ _ F) as [d Hd]. rewrite (retrieve_agree t p d restart Hd). reflexivity.
+  - (* LIST *) destruct (m_exists t p); [|reflexivity]. rewrite listing_agree. reflexivity.
+  - (* MLSD *) destruct (m_exists t p); [|reflexivity]. rewrite listing_agree. reflexivity.
+  - (* CWD *) reflexivity.
+  - (* MLST *) destruct (m_exists t p); [|reflexivity]. cbn [m_run p_run fst].
+    pose proof (stat_agree t p) as H.
+    destruct (m_stat t p) as [v|e], (p_stat t p) as [w|e']; cbn in H; try contradiction; subst; reflexivity.
+Qed.
+
+(* every tree the server model produces is the tree after some backend operation (or unchanged) *)
+Section Preserve.
+  Variable run : node -> fsop -> result * node.
+  Variable P : node -> Prop.
+  Hypothesis run_pres : forall t o, P t -> P (snd (run t o)).
+
+  Lemma conds_pres t cs k : P t -> P (snd k) -> P (snd (conds run t cs k)).
+  Proof.
+    intros Ht Hk. induction cs as [|[o want] r IH]; [exact Hk|]. cbn.
+    destruct (ask run t o); destruct want; try exact Ht; exact IH.
+  Qed.
+
+  Lemma simple_pres t o c : P t -> P (snd (simple run t o c)).
+  Proof.
+    intro Ht. unfold simple. pose proof (run_pres t o Ht) as H.
+    destruct (run t o) as [[v|e] t']; exact H.
+  Qed.
+
+  Lemma store_pres t p m restart blocks : P t -> P (snd (store run t p m restart blocks)).
+  Proof.
+    intro Ht. unfold store. destruct (unsnoc p) as [[pp x]|]; [|exact Ht].
+    destruct (ask run t (IsDir pp)); try exact Ht.
+    match goal with |- context [run t ?o] => pose proof (run_pres t o Ht) as H; destruct (run t o) as [[v|e] t'] end;
+      [|exact H].
+    destruct v; try exact H. destruct (forallb hres_ok rs); exact H.
+  Qed.
+
+  Lemma retrieve_pres t p restart : P t -> P (snd (retrieve run t p restart)).
+  Proof.
+    intro Ht. unfold retrieve.
+    match goal with |- context [run t ?o] => pose proof (run_pres t o Ht) as H; destruct (run t o) as [[v|e] t'] end;
+      [|exact H].
+    destruct v; try exact H. destruct (last rs (HErr EValue)); try exact H. destruct (forallb hres_ok rs); exact H.
+  Qed.
+
+  Lemma listing_pres t p c : P t -> P (snd (listing run t p c)).
+  Proof.
+    intro Ht. unfold listing. destruct (fst (run t (List p))) as [v|e]; [|exact Ht].
+    destruct v; try exact Ht. destruct (stat_entries run t p l); exact Ht.
+  Qed.
+
+  Lemma srv_step_pres rf t c : P t -> P (snd (snd (srv_step run (rf, t) c))).
+  Proof.
+    intro Ht. destruct c as [p|p|p|p|p|p restart blocks|p restart blocks|p restart|p|p|p|p]; cbn [srv_step fst snd].
+    - apply conds_pres; [exact Ht|apply simple_pres, Ht].
+    - apply conds_pres; [exact Ht|apply simple_pres, Ht].
+    - apply conds_pres; [exact Ht|apply simple_pres, Ht].
+    - destruct (ask run t (Exists p)); exact Ht.
+    - destruct rf as [a|]; [|exact Ht]. destruct (ask run t (Exists p)); try exact Ht.
+      pose proof (simple_pres t (Rename a p) 250 Ht) as H. destruct (simple run t (Rename a p) 250). exact H.
+    - apply store_pres, Ht.
+    - apply store_pres, Ht.
+    - apply conds_pres; [exact Ht|apply retrieve_pres, Ht].
+    - apply conds_pres; [exact Ht|apply listing_pres, Ht].
+    - apply conds_pres; [exact Ht|apply listing_pres, Ht].
+    - apply conds_pres; [exact Ht|exact Ht].
+    - apply conds_pres; [exact Ht|]. destruct (fst (run t (Stat p))) as [v|e]; [|exact Ht]. destruct v; exact Ht.
+  Qed.
+End Preserve.
+
+Lemma srv_step_wf rf t c : wf t -> wf (snd (snd (srv_step m_run (rf, t) c))).
+Proof. apply srv_step_pres. intros t0 o. apply m_run_wf. Qed.
+
+(* ---- a failing command changes nothing (MemFS side; the PosixFS side follows by agreement) ---- *)
+Lemma m_mkdir_err t p par eok e : fst (m_mkdir t p par eok) = Err e -> snd (m_mkdir t p par eok) = t.
+Proof.
+  unfold m_mkdir, get_node. destruct (lookup p t) as [n|].
+  - destruct (negb (is_dir_node n) || negb eok); reflexivity.
+  - destruct (negb par).
+    + destruct (unsnoc p) as [[pp x]|]; [|reflexivity]. destruct (lookup pp t) as [[d|es]|]; try reflexivity. discriminate.
+    + destruct (m_mkdir_walk p t); [discriminate|reflexivity].
+Qed.
+
+Lemma m_rmdir_err t p e : fst (m_rmdir t p) = Err e -> snd (m_rmdir t p) = t.
+Proof.
+  unfold m_rmdir, get_node. destruct (lookup p t) as [[d|[|x es]]|]; try reflexivity. destruct p; [reflexivity|discriminate].
+Qed.
+
+Lemma m_unlink_err t p e : fst (m_unlink t p) = Err e -> snd (m_unlink t p) = t.
+Proof. unfold m_unlink, get_node. destruct (lookup p t) as [[d|es]|]; try reflexivity. discriminate. Qed.
+
+Lemma p_rename_err t a b e : fst (p_rename t a b) = Err e -> snd (p_rename t a b) = t.
+Proof.
+  unfold p_rename. destruct (unsnoc a) as [[ap an]|]; [|reflexivity]. destruct (unsnoc b) as [[bp bn]|]; [|reflexivity].
+  destruct (resolve_parent t ap) as [ses|e1]; [|reflexivity]. destruct (resolve_parent t bp) as [des|e2]; [|reflexivity].
+  destruct (assoc an ses) as [sn|]; [|reflexivity]. destruct (path_eqb a b); [reflexivity|].
+  destruct (is_prefix a b); [reflexivity|]. destruct (is_prefix b a); [reflexivity|].
+  destruct sn as [d|es]; destruct (assoc bn des) as [[d'|[|x es']]|]; try reflexivity; discriminate.
+Qed.
+
+Lemma m_open_err t p m s e : fst (m_open t p m s) = Err e -> snd (m_open t p m s) = t.
+Proof.
+  unfold m_open, get_node.
+  assert (Hrun : forall d pos t0 X,
+            fst (let '(rs, data') := run_hops true true false EValue d pos s in
+                 (Ok (VOpen rs), upd p (fun _ => File data') t0)) = Err e -> X).
+  { intros d pos t0 X. destruct (run_hops true true false EValue d pos s). discriminate. }
+  destruct m; try reflexivity;
+    (destruct (lookup p t) as [[d|es]|]; try reflexivity; try (apply Hrun; fail)).
+  all: destruct (unsnoc p) as [[pp x]|]; try reflexivity;
+    destruct (lookup pp t) as [[d|es]|]; try reflexivity;
+    destruct (run_hops true true false EValue [] 0 s); discriminate.
+Qed.
+
+Lemma run_hops_no_write r w a e s : forall data pos,
+  Forall seek_read s -> snd (run_hops r w a e data pos s) = data.
+Proof.
+  induction s as [|h s IH]; intros data pos F; [reflexivity|].
+  inversion F as [|? ? Hh Hs]; subst. destruct h as [off|n|d]; cbn in Hh |- *; [| |contradiction].
+  - destruct (off <? 0).
+    + specialize (IH data pos Hs). destruct (run_hops r w a e data pos s). exact IH.
+    + specialize (IH data off Hs). destruct (run_hops r w a e data off s). exact IH.
+  - destruct r.
+    + specialize (IH data (pos + zlen (read_at data pos n)) Hs).
+      destruct (run_hops true w a e data (pos + zlen (read_at data pos n)) s). exact IH.
+    + specialize (IH data pos Hs). destruct (run_hops false w a e data pos s). exact IH.
+Qed.
+
+Lemma retrieve_tree t p d restart : lookup p t = Some (File d) -> snd (retrieve m_run t p restart) = t.
+Proof.
+  intro H. unfold retrieve. cbn [m_run]. unfold m_open, get_node. rewrite H.
+  pose proof (run_hops_no_write true true false EValue _ d 0 (retr_script_ok restart)) as Hd.
+  destruct (run_hops true true false EValue d 0 _) as [rs data']. cbn in Hd. subst data'.
+  assert (U : upd p (fun _ => File d) t = t) by (eapply upd_id; [exact H|reflexivity]). rewrite U.
+  destruct (last rs (HErr EValue)); try reflexivity. destruct (forallb hres_ok rs); reflexivity.
+Qed.
+
+Definition mem_hop_ok (h : hop) : Prop :=
+  match h with HSeek off => 0 <= off | HRead _ => true = true | HWrite _ => True end.
+
+(* on a MemoryPathIO handle a script without negative seeks cannot fail *)
+Lemma m_open_ok t p m s v t' :
+  Forall mem_hop_ok s -> m_open t p m s = (Ok v, t') ->
+  exists rs, v = VOpen rs /\ forallb hres_ok rs = true.
+Proof.
+  intros Fs. unfold m_open, get_node.
+  assert (Hrun : forall d pos t0,
+            (let '(rs0, data') := run_hops true true false EValue d pos s in
+             (Ok (VOpen rs0), upd p (fun _ => File data') t0)) = (Ok v, t') ->
+            exists rs, v = VOpen rs /\ forallb hres_ok rs = true).
+  { intros d pos t0. pose proof (hops_ok_writes true false EValue s d pos Fs) as Hk.
+    destruct (run_hops true true false EValue d pos s) as [rs0 d0]. cbn in Hk.
+    intro Hq. inversion Hq; subst. exists rs0. auto. }
+  destruct m; try discriminate;
+    (destruct (lookup p t) as [[d|es]|]; try discriminate; try (apply Hrun; fail)).
+  all: destruct (unsnoc p) as [[pp x]|]; try discriminate;
+    destruct (lookup pp t) as [[d|es]|]; try discriminate;
+    pose proof (hops_ok_writes true false EValue s [] 0 Fs) as Hk;
+    destruct (run_hops true true false EValue [] 0 s) as [rs0 d0]; cbn in Hk;
+    intro Hq; inversion Hq; subst; exists rs0; auto.
+Qed.
+
+Lemma store_script_ok restart blocks :
+  Forall mem_hop_ok ((if 0 <? restart then [HSeek restart] else []) ++ map HWrite blocks).
+Proof.
+  destruct (0 <? restart) eqn:R; cbn [app].
+  - constructor; [cbn; lia|]. apply Forall_forall. intros h Hh. apply in_map_iff in Hh as [b [<- _]]. exact Logic.I.
+  - apply Forall_forall. intros h Hh. apply in_map_iff in Hh as [b [<- _]]. exact Logic.I.
+Qed.
+
+Lemma store_inert t p m restart blocks :
+  failing (fst (store m_run t p m restart blocks)) = true -> snd (store m_run t p m restart blocks) = t.
+Proof.
+  unfold store. destruct (unsnoc p) as [[pp x]|]; [|reflexivity].
+  destruct (ask m_run t (IsDir pp)); try reflexivity. cbn [m_run].
+  set (fm := if 0 <? restart then RPB else m).
+  set (script := (if 0 <? restart then [HSeek restart] else []) ++ map HWrite blocks).
+  pose proof (m_open_err t p fm script) as He.
+  pose proof (m_open_ok t p fm script) as Hk.
+  destruct (m_open t p fm script) as [[v|e] t'] eqn:Eo.
+  - destruct (Hk v t' (store_script_ok restart blocks) eq_refl) as [rs [-> Hok]].
+    rewrite Hok. cbn. discriminate.
+  - intros _. cbn [fst snd] in *. eapply He. reflexivity.
+Qed.
+
+Lemma listing_tree run t p c : snd (listing run t p c) = t.
+Proof.
+  unfold listing. destruct (fst (run t (List p))) as [v|e]; [|reflexivity].
+  destruct v; try reflexivity. destruct (stat_entries run t p l); reflexivity.
+Qed.
+
+Lemma rnto_step_agree t a p :
+  wf t -> m_exists t p = false -> rnto_bad t a p = false ->
+  step_agree (m_rename t a p) (p_rename t a p).
+Proof.
+  intros W E S. destruct a as [|a0 ar].
+  - unfold m_rename, p_rename. destruct p; [cbn in E; discriminate|]. cbn. split; cbn; auto.
+  - unfold rnto_bad in S. rewrite E in S. cbn [negb andb] in S. apply orb_false_iff in S as [S1 S2].
+    apply rename_agree; [exact W|discriminate|apply m_exists_false, E|exact S1|exact S2].
+Qed.
+
+Lemma srv_step_inert rf t c :
+  wf t -> shape_ok (rf, t) c = true ->
+  failing (fst (srv_step m_run (rf, t) c)) = true -> snd (snd (srv_step m_run (rf, t) c)) = t.
+Proof.
+  intros W S. unfold shape_ok in S. apply andb_true_iff in S as [_ S]. cbn [fst snd] in S.
+  destruct c as [p|p|p|p|p|p restart blocks|p restart blocks|p restart|p|p|p|p];
+    cbn [srv_step conds]; rewrite ?ask_exists_m, ?ask_is_dir_m, ?ask_is_file_m.
+  - destruct (m_exists t p); [reflexivity|]. unfold simple. cbn [m_run].
+    pose proof (m_mkdir_err t p true false) as He. destruct (m_mkdir t p true false) as [[v|e] t'].
+    + cbn. discriminate.
+    + intros _. cbn [fst snd] in *. eapply He. reflexivity.
+  - destruct (m_exists t p); [|reflexivity]. destruct (m_is_dir t p); [|reflexivity]. unfold simple. cbn [m_run].
+    pose proof (m_rmdir_err t p) as He. destruct (m_rmdir t p) as [[v|e] t'].
+    + cbn. discriminate.
+    + intros _. cbn [fst snd] in *. eapply He. reflexivity.
+  - destruct (m_exists t p); [|reflexivity]. destruct (m_is_file t p); [|reflexivity]. unfold simple. cbn [m_run].
+    pose proof (m_unlink_err t p) as He. destruct (m_unlink t p) as [[v|e] t'].
+    + cbn. discriminate.
+    + intros _. cbn [fst snd] in *. eapply He. reflexivity.
+  - destruct (m_exists t p); reflexivity.
+  - destruct rf as [a|]; [|reflexivity]. destruct (m_exists t p) eqn:E; [reflexivity|].
+    apply negb_true_iff in S. pose proof (rnto_step_agree t a p W E S) as [A1 A2].
+    unfold simple. cbn [m_run]. pose proof (p_rename_err t a p) as He.
+    destruct (m_rename t a p) as [[v|e] t'], (p_rename t a p) as [[w|e'] t2]; cbn in A1, A2 |- *; try contradiction.
+    + discriminate.
+    + intros _. subst t2. eapply He. reflexivity.
+  - apply store_inert.
+  - apply store_inert.
+  - destruct (m_exists t p); [|reflexivity]. destruct (m_is_file t p) eqn:F; [|reflexivity].
+    destruct (m_is_file_true _ _ F) as [d Hd]. intros _. cbn [fst snd]. apply (retrieve_tree t p d restart Hd).
+  - destruct (m_exists t p); [|reflexivity]. intros _. cbn [fst snd]. apply listing_tree.
+  - destruct (m_exists t p); [|reflexivity]. intros _. cbn [fst snd]. apply listing_tree.
+  - destruct (m_exists t p); [|reflexivity]. destruct (m_is_dir t p); reflexivity.
+  - destruct (m_exists t p); [|reflexivity]. cbn [m_run fst]. destruct (m_stat t p) as [v|e]; [|reflexivity].
+    destruct v; reflexivity.
+Qed.
+
+(* ---- the composed theorem ---- *)
+Theorem backends_agree_partial : forall cs rf t,
+  wf t -> shapes_ok (rf, t) cs = true ->
+  srv_run m_run (rf, t) cs = srv_run p_run (rf, t) cs
+  /\ inert_from t (srv_run m_run (rf, t) cs)
+  /\ inert_from t (srv_run p_run (rf, t) cs).
+Proof.
+  induction cs as [|c r IH]; intros rf t W S; [cbn; auto|].
+  cbn [shapes_ok] in S. apply andb_true_iff in S as [S1 S2].
+  pose proof (srv_step_agree rf t c W S1) as A.
+  pose proof (srv_step_wf rf t c W) as W'.
+  pose proof (srv_step_inert rf t c W S1) as I1.
+  cbn [srv_run]. rewrite <- A.
+  destruct (srv_step m_run (rf, t) c) as [rep [rf' t']]. cbn [fst snd] in *.
+  destruct (IH rf' t' W' S2) as [E [J1 J2]].
+  rewrite <- E. split; [reflexivity|]. split; cbn [inert_from]; (split; [exact I1|assumption]).
+Qed.
+
+Corollary backends_agree_abs : forall cs rf t,
+  wf t -> shapes_ok (rf, t) cs = true ->
+  map (fun x => (fst x, abs (snd x))) (srv_run m_run (rf, t) cs)
+  = map (fun x => (fst x, abs (snd x))) (srv_run p_run (rf, t) cs).
+Proof. intros cs rf t W S. destruct (backends_agree_partial cs rf t W S) as [E _]. rewrite E. reflexivity. Qed.
+
+(* ---- witnesses of the genuine divergences ---- *)
+Definition nd : name := [100]. Definition ne : name := [101]. Definition nf : name := [102].
+Definition ng : name := [103]. Definition nh : name := [104]. Definition nm : name := [109].
+Definition nx : name := [120].
+
+(* /d/{f = "abc", e/}, /g = "xyz" *)
+Definition wt0 : node :=
+  Dir [(nd, Dir [(nf, File [97; 98; 99]); (ne, Dir [])]); (ng, File [120; 121; 122])].
+
+Lemma wt0_wf : wf wt0.
+Proof.
+  unfold wt0. cbn.
+  repeat match goal with
+         | |- _ /\ _ => split
+         | |- True => exact Logic.I
+         | |- NoDup _ => constructor
+         | |- ~ _ => cbn; intuition discriminate
+         end.
+Qed.
+
+Definition codes_of (l : list (reply * node)) : list (list Z) := map (fun x => fst (fst x)) l.
+Definition last_tree (t : node) (l : list (reply * node)) : node := last (map snd l) t.
+
+(* F6: REST 2; STOR /m  (m missing): memory 150/226 and the file appears, disk 150/451 unchanged *)
+Theorem rest_stor_missing_refuted :
+  exists t p n blocks,
+    wf t /\ shape_ok (None, t) (CStor p n blocks) = false /\
+    codes_of (srv_run m_run (None, t) [CStor p n blocks]) = [[150; 226]] /\
+    codes_of (srv_run p_run (None, t) [CStor p n blocks]) = [[150; 451]] /\
+    lookup p (last_tree t (srv_run m_run (None, t) [CStor p n blocks])) = Some (File [0; 0; 80; 81]) /\
+    last_tree t (srv_run p_run (None, t) [CStor p n blocks]) = t.
+Proof.
+  exists wt0, [nm], 2, [[80; 81]]. split; [exact wt0_wf|]. repeat split; vm_compute; reflexivity.
+Qed.
+
+(* F7a: RNFR /d; RNTO /d/e/h: memory 250 and /d is gone, disk 451 unchanged *)
+Theorem rename_into_self_refuted :
+  exists t a b,
+    wf t /\ shapes_ok (None, t) [CRnfr a; CRnto b] = false /\
+    codes_of (srv_run m_run (None, t) [CRnfr a; CRnto b]) = [[350]; [250]] /\
+    codes_of (srv_run p_run (None, t) [CRnfr a; CRnto b]) = [[350]; [451]] /\
+    lookup a (last_tree t (srv_run m_run (None, t) [CRnfr a; CRnto b])) = None /\
+    lookup b (last_tree t (srv_run m_run (None, t) [CRnfr a; CRnto b])) = None /\
+    last_tree t (srv_run p_run (None, t) [CRnfr a; CRnto b]) = t.
+Proof.
+  exists wt0, [nd], [nd; ne; nh]. split; [exact wt0_wf|]. repeat split; vm_compute; reflexivity.
+Qed.
+
+(* F7b: RNFR /d; RNTO /g/x (g is a file): both answer 451, but memory has already removed /d *)
+Theorem rename_under_file_refuted :
+  exists t a b,
+    wf t /\ shapes_ok (None, t) [CRnfr a; CRnto b] = false /\
+    codes_of (srv_run m_run (None, t) [CRnfr a; CRnto b]) = [[350]; [451]] /\
+    codes_of (srv_run p_run (None, t) [CRnfr a; CRnto b]) = [[350]; [451]] /\
+    lookup a (last_tree t (srv_run m_run (None, t) [CRnfr a; CRnto b])) = None /\
+    last_tree t (srv_run p_run (None, t) [CRnfr a; CRnto b]) = t /\
+    ~ inert_from t (srv_run m_run (None, t) [CRnfr a; CRnto b]).
+Proof.
+  exists wt0, [nd], [ng; nx]. split; [exact wt0_wf|]. repeat split; try (vm_compute; reflexivity).
+  intro H. cbn [srv_run] in H. vm_compute in H. destruct H as [_ [H _]]. specialize (H eq_refl). discriminate.
+Qed.
+
+(* F15: RNFR /g; DELE /g; RNTO /g: memory 250 (source == destination is not checked), disk 451 *)
+Theorem rnto_same_path_refuted :
+  exists t a,
+    wf t /\ shapes_ok (None, t) [CRnfr a; CDele a; CRnto a] = false /\
+    codes_of (srv_run m_run (None, t) [CRnfr a; CDele a; CRnto a]) = [[350]; [250]; [250]] /\
+    codes_of (srv_run p_run (None, t) [CRnfr a; CDele a; CRnto a]) = [[350]; [250]; [451]].
+Proof.
+  exists wt0, [ng]. split; [exact wt0_wf|]. repeat split; vm_compute; reflexivity.
+Qed.
+
+(* the hypotheses of backends_agree_partial are satisfiable by a history that exercises every verb *)
+Example agree_nonvacuous :
+  wf wt0 /\
+  shapes_ok (None, wt0)
+    [CMkd [nm; nx]; CStor [nm; nx; nf] 0 [[1; 2]; [3]]; CStor [nm; nx; nf] 1 [[9]]; CAppe [nm; nx; nf] 0 [[4]];
+     CRetr [nm; nx; nf] 1; CRnfr [nm]; CRnto [nd; ne; nm]; CList [nd; ne]; CDele [nd; ne; nm; nx; nf];
+     CRmd [nd; ne; nm; nx]; CRmd [nd]; CCwd [nd]; CMlst [ng]; CRnfr [ng]; CRnto [nm; nx]] = true.
+Proof. split; [exact wt0_wf|vm_compute; reflexivity]. Qed.
